@@ -360,6 +360,7 @@ func loadFindings(path string) (*FindingsFile, error) {
 
 // World is everything loaded from /repo for one run.
 type World struct {
+	Stubs     map[string][]byte // contract files that do not compile, replaced by clause-only stubs
 	Fset      *token.FileSet
 	Prog      *ssa.Program
 	Pkgs      map[string]*packages.Package // phase A packages by path
@@ -418,13 +419,51 @@ func loadWorldF(repoDir string, ff *FindingsFile) (*World, error) {
 		BuildFlags: []string{"-tags=verif", "-mod=mod"},
 		Env:        append(os.Environ(), "GOFLAGS=-mod=mod", "GOPROXY=off", "GOSUMDB=off", "GOTOOLCHAIN=local"),
 	}
-	pkgs, err := packages.Load(cfg, "./...")
-	if err != nil {
-		return nil, err
+	// A contract file that no longer compiles against the code (a spec function names a helper that
+	// was renamed, ...) must not take the other packages' contracts down with it: such a file is
+	// replaced, in memory, by a stub that keeps its package clause and its //@ clauses only; the
+	// clauses then fail to type-check one by one and their contracts are reported as broken.
+	stubs := map[string][]byte{}
+	var pkgs []*packages.Package
+	for round := 0; ; round++ {
+		cfg.Overlay = stubs
+		var err error
+		pkgs, err = packages.Load(cfg, "./...")
+		if err != nil {
+			return nil, err
+		}
+		added := false
+		packages.Visit(pkgs, nil, func(p *packages.Package) {
+			if !strings.HasPrefix(p.PkgPath, repoModule) {
+				return
+			}
+			for _, e := range p.Errors {
+				file := e.Pos
+				if i := strings.Index(file, ":"); i >= 0 {
+					file = file[:i]
+				}
+				if filepath.Base(file) != "verif_contracts.go" || stubs[file] != nil {
+					continue
+				}
+				src, rerr := os.ReadFile(file)
+				if rerr != nil {
+					continue
+				}
+				fmt.Fprintf(os.Stderr, "contract file %s does not compile (%s): its contracts are treated as broken\n", file, e.Msg)
+				stubs[file] = contractStub(src)
+				added = true
+			}
+		})
+		if !added || round > 8 {
+			break
+		}
 	}
 	w := &World{Fset: cfg.Fset, Pkgs: map[string]*packages.Package{}, Types: map[string]*types.Package{}, Info: map[string]*types.Info{},
 		Files: map[string][]*ast.File{}, SSA: map[string]*ssa.Package{}, Contracts: map[string]*Contract{}, Preds: map[string]*ssa.Function{},
-		RepoDir: repoDir, GenSrc: map[string]string{}, Overlay: map[string][]byte{}, LoopCount: map[string]int{}, Findings: ff}
+		RepoDir: repoDir, GenSrc: map[string]string{}, Overlay: map[string][]byte{}, LoopCount: map[string]int{}, Findings: ff, Stubs: stubs}
+	for f, b := range stubs {
+		w.Overlay[f] = b
+	}
 	if len(pkgs) > 0 {
 		w.Fset = pkgs[0].Fset
 	}
@@ -565,7 +604,7 @@ func (w *World) processRepoPackageOnce(p *packages.Package, imp types.Importer, 
 		if filepath.Base(f) != "verif_contracts.go" {
 			continue
 		}
-		src, err := os.ReadFile(f)
+		src, err := w.readFile(f)
 		if err != nil {
 			return "", "", err
 		}
@@ -963,6 +1002,7 @@ func (w *World) processRepoPackageOnce(p *packages.Package, imp types.Importer, 
 			"vcExitCode":   "func vcExitCode() int { return 0 }\n",
 			"vcPrinted":    "func vcPrinted() bool { return false }\n",
 			"vcLoggedError": "func vcLoggedError() bool { return false }\n",
+			"vcCallFailed":  "func vcCallFailed() bool { return false }\n",
 			"implies":      "func implies(a, b bool) bool { return !a || b }\n",
 		}
 		var hn []string
@@ -1013,7 +1053,7 @@ func (w *World) processRepoPackageOnce(p *packages.Package, imp types.Importer, 
 				files = append(files, af)
 			} else {
 				// re-parse to obtain fresh AST objects (type info maps are per check)
-				src, err := os.ReadFile(f)
+				src, err := w.readFile(f)
 				if err != nil {
 					return "", "", err
 				}
@@ -1290,4 +1330,32 @@ func (w *World) isIfaceMethod(p *packages.Package, name string) bool {
 		}
 	}
 	return false
+}
+
+
+// readFile reads a repository source file, or its in-memory stub.
+func (w *World) readFile(f string) ([]byte, error) {
+	if b, ok := w.Stubs[f]; ok {
+		return b, nil
+	}
+	return os.ReadFile(f)
+}
+
+// contractStub keeps the build constraint, the package clause and the //@ clause lines of a
+// contract file (blank lines between contracts preserved), and nothing else.
+func contractStub(src []byte) []byte {
+	var b bytes.Buffer
+	for _, l := range strings.Split(string(src), "\n") {
+		t := strings.TrimSpace(l)
+		switch {
+		case strings.HasPrefix(t, "//go:build"), strings.HasPrefix(t, "package "), strings.HasPrefix(t, "//@"):
+			b.WriteString(l + "\n")
+			if strings.HasPrefix(t, "//go:build") {
+				b.WriteString("\n")
+			}
+		default:
+			b.WriteString("\n")
+		}
+	}
+	return b.Bytes()
 }
